@@ -17,6 +17,10 @@
       use x | drop x                         `touch(&x)` / `drop(x)`  (every drop is explicit)
       slot o | store o x                     `let mut o = None` / `o = Some(x)`  (outer variable)
       send x | share x                       move `x` into / share `&x` with a scoped thread that uses it
+      vconv x v input name                   `let x = Out::from(v)` / `v.current_chunk()` / `v.next()`: a row of the table's
+                                             `valueConvs` (conversions between lifetime-carrying values: Stats, Chunk,
+                                             the chunk iterators, their `Any*` forms, BumpBox → FixedBumpVec)
+      join x f input name                    `x` came out of `BumpVec::from_parts(f, allocator)`: `x` may live in `f`'s memory
   * STATIC side (`check`): every variable has an entry (kind, access, `self` region, `param` region).
     A region is a list of loans (`borrow v mode`) — the places that must stay untouched for the thing
     to stay usable — `'static` is `[]`.  The region of a result is what the signature table says
@@ -116,6 +120,8 @@ inductive Stmt
   | store (o x : Var)
   | send (x : Var)
   | share (x : Var)
+  | vconv (x v : Var) (input name : String)
+  | join (x f : Var) (input name : String)
   deriving Repr, Inhabited
 
 /-! ## static semantics -/
@@ -406,6 +412,43 @@ def checkStore (Γ : SEnv) (o x : Var) : Except Rej SEnv :=
         let Γ1 := Γ.remove x
         .ok { Γ1 with ents := Γ1.ents.map fun e => if e.var == o then { e with self := e.self ++ ex.self, param := e.param ++ ex.self } else e }
 
+/-- every lifetime position of the output is one of the input's lifetimes -/
+def ValueConv.tied (c : ValueConv) : Bool := c.lts != [] && c.lts.all (· == .fromInput)
+
+/-- what the borrow checker knows about the output of a conversion of the value `e`: it is bounded by the region of `e`
+    exactly if its type names a lifetime of the input; an elided (= fresh) or `'static` output lifetime is bounded by
+    nothing -/
+def convRegion (c : ValueConv) (e : Entry) : Region := if c.lts.any (· == .fromInput) then e.self else []
+
+/-- `let x = Out::from(v)` / `v.accessor()` / `v.next()`: the source is `Copy` (or not used again) -/
+def checkVconv (t : Table) (Γ : SEnv) (x v : Var) (input name : String) : Except Rej SEnv :=
+  match t.lookupConv input name with
+  | none => .error .notApplicable
+  | some c =>
+    if c.form == .ctor || c.form == .refView then .error .illformed else
+    match Γ.lookupValid v with
+    | .error r => .error r
+    | .ok e =>
+      if e.kind != .val then .error .illformed
+      else Γ.declare ⟨x, .val, .own, convRegion c e, convRegion c e, true, Γ.depth⟩
+
+/-- `x` was obtained from a collection built by `Out::from_parts(f, allocator)`: if the signature ties the lifetime of `f`
+    to the allocator's, `x` is bounded by `f`'s region as well (`store`), otherwise `f` is merely consumed -/
+def checkJoin (t : Table) (Γ : SEnv) (x f : Var) (input name : String) : Except Rej SEnv :=
+  match t.lookupConv input name with
+  | none => .error .notApplicable
+  | some c =>
+    if c.form != .ctor then .error .illformed
+    else if c.tied then checkStore Γ x f
+    else
+      match Γ.lookupValid x with
+      | .error r => .error r
+      | .ok ex =>
+        match Γ.lookupValid f with
+        | .error r => .error r
+        | .ok ef =>
+          if ex.kind != .val || ef.kind != .val || x == f then .error .illformed else .ok (Γ.remove f)
+
 def checkStmt (t : Table) (fl : Flags) (Γ : SEnv) : Stmt → Except Rej SEnv
   | .newBump b => Γ.declare ⟨b, .bump, .own, [], [], true, Γ.depth⟩
   | .newPool p => Γ.declare ⟨p, .pool, .own, [], [], true, Γ.depth⟩
@@ -436,6 +479,8 @@ def checkStmt (t : Table) (fl : Flags) (Γ : SEnv) : Stmt → Except Rej SEnv
       | .ok e =>
         if !shareOK t fl e then .error .notSend
         else .ok (if e.kind == .val then Γ else Γ.useShr x)
+  | .vconv x v input name => checkVconv t Γ x v input name
+  | .join x f input name => checkJoin t Γ x f input name
 
 def check (t : Table) (fl : Flags) : SEnv → List Stmt → Except (Nat × Rej) SEnv
   | Γ, [] => .ok Γ
@@ -627,6 +672,16 @@ def runStmt (fl : Flags) (σ : DState) : Stmt → Except Fault DState
       | some r =>
         if !threadSafe fl r true then .error .crossThread
         else if r.kind == .val && !σ.alive r then .error .uaf else .ok σ
+  | .vconv x v _ _ =>
+      -- the output points to the same memory as the input (reading it, for the chunk iterators)
+      match σ.get v with
+      | none => .error .stuck
+      | some r => if r.kind != .val then .error .stuck else if !σ.alive r then .error .uaf else .ok (σ.set x r)
+  | .join x f _ _ =>
+      -- (without growth) the collection's buffer is the memory of `f`
+      match σ.get x, σ.get f with
+      | some rx, some rf => if !σ.alive rx then .error .uaf else .ok (σ.set x rf)
+      | _, _ => .error .stuck
 
 def run (fl : Flags) : DState → List Stmt → Except (Nat × Fault) DState
   | σ, [] => .ok σ
